@@ -41,10 +41,76 @@ def items(tier):
     out = [{"name": G.show(L.B(a)), "ast": a, "tier": tier} for a in L.dedupe(sol)]
     for a, side in ((L.I01, "bleft"), (L.I01, "bright"), (L.I_MOVE, "bleft"), (L.I_MOVE, "bright"), (L.I_GROW, "bright")):
         out.append({"name": G.show({"k": side, "a": a}), "ast": a, "tier": tier, "side": side})
+    for shape in ("tetra", "box"):
+        for winding in ("out", "in"):
+            for source in ("arrays", "file"):
+                out.append({"name": "trimesh|%s|%s|%s" % (shape, winding, source), "trimesh": [shape, winding, source], "ast": None, "tier": tier})
     return out
 
 
+def run_trimesh(item):
+    """normals of a TrimeshPolyhedron boundary (vertices/faces in either winding, or loaded from a file)"""
+    import os, shutil, tempfile
+    from ..ref import poly3d as P3
+    res = {"evals": 0, "transitions": 0, "states": [], "outcomes": [], "violations": [], "rejected": 0, "samples": []}
+    shape, winding, source = item["trimesh"]
+    name = item["name"]
+    v, f = P3.SHAPES[shape]
+    tmp = tempfile.mkdtemp(prefix="tpmc_c06_", dir=os.environ.get("TMPDIR"))
+    try:
+        D = P3.build(shape, winding, source, tmp).boundary
+        for mode, n in (("grid", 40), ("random", 200)):
+            np.random.seed(4321)
+            res["states"].append("%s|%s" % (name, mode))
+            res["transitions"] += 1
+            S = D.sample_grid(n=n) if mode == "grid" else D.sample_random_uniform(n=n)
+            pts = S.as_tensor.double().numpy()
+            nrm = torch.as_tensor(D.normal(S)).double().numpy()
+            h = 1e-3
+            t = np.asarray(v, dtype=np.float64)[np.asarray(f)]
+            fn = np.cross(t[:, 1] - t[:, 0], t[:, 2] - t[:, 0])
+            fn = fn / np.linalg.norm(fn, axis=1, keepdims=True)
+            dist = np.abs(np.einsum("pj,fj->pf", pts, fn) - np.einsum("fj,fj->f", fn, t[:, 0])[None, :])
+            planes = np.unique(np.round(np.concatenate([fn * np.sign(fn[:, [np.argmax(np.abs(fn[0]))]] + 1e-12), np.einsum("fj,fj->f", fn, t[:, 0])[:, None]], 1), 6), axis=0)
+            judged = (np.abs(P3.sdf_bound(v, f, pts)) <= 1e-4)
+            # skip points within 3h of an edge: two different face planes close
+            close = np.zeros(len(pts), dtype=int)
+            seen_planes = []
+            for k in range(len(fn)):
+                key = tuple(np.round(np.concatenate([fn[k] * (1 if fn[k][np.argmax(np.abs(fn[k]))] > 0 else -1), [abs(np.dot(fn[k], t[k, 0]))]]), 5))
+                if key in seen_planes:
+                    continue
+                seen_planes.append(key)
+                close += (dist[:, k] <= 3 * h).astype(int)
+            judged &= close <= 1
+            idx = np.where(judged)[0]
+            res["evals"] += len(idx)
+            if not len(idx):
+                continue
+            sub_ = nrm[idx]
+            if not np.isfinite(sub_).all() or (np.abs(np.linalg.norm(sub_, axis=1) - 1) > 1e-4).any():
+                res["violations"].append({"key": "C06|trimesh-not-unit", "what": "%s %s: a normal is not a finite unit vector" % (name, mode), "detail": {"item": name}})
+                continue
+            out = P3.sdf_bound(v, f, pts[idx] + h * sub_)
+            inn = P3.sdf_bound(v, f, pts[idx] - h * sub_)
+            bad = (out <= 0) | (inn > 0)
+            if bad.any():
+                i = idx[np.where(bad)[0][0]]
+                res["violations"].append({"key": "C06|not-outward|trimesh", "what": "%s %s: normal %s at %s does not point out of the polyhedron (%d of %d judged points)" % (
+                    name, mode, np.round(nrm[i], 3).tolist(), np.round(pts[i], 4).tolist(), int(bad.sum()), len(idx)), "detail": {"item": name}})
+            else:
+                res["outcomes"].append("%s|%s" % (name, mode))
+    except Exception as e:
+        res["violations"].append({"key": "C06|error|%s|trimesh" % type(e).__name__, "what": "%s raised %s: %s" % (name, type(e).__name__, str(e)[:120]), "detail": {"item": name}})
+    finally:
+        shutil.rmtree(tmp, ignore_errors=True)
+    res["samples"] = [{"trimesh": name}]
+    return res
+
+
 def run_item(item):
+    if item.get("trimesh"):
+        return run_trimesh(item)
     a, tier = item["ast"], item["tier"]      # a is the SOLID; the boundary expression is B(a)
     name = item["name"]
     res = {"evals": 0, "transitions": 0, "states": [], "outcomes": [], "violations": [], "rejected": 0, "samples": []}
